@@ -24,8 +24,12 @@ case "$ID/$N" in
   C20/4) FLAGS="-C target-feature=+avx";;
   C12/4|C13/3|C13/4) FEAT="--features force-32bits";;
 esac
+# round 3 and later: flags come from the environment (VM_FLAGS / VM_FEAT / VM_PROF), the table above is for rounds 1-2
+[ -n "${VM_FLAGS+x}" ] && FLAGS="$VM_FLAGS"
+[ -n "${VM_FEAT+x}" ] && FEAT="$VM_FEAT"
+[ -n "${VM_PROF+x}" ] && PROF="$VM_PROF"
 demo() {
-  if [ -f $M/demo.sh ]; then sh $M/demo.sh >/dev/null 2>&1; return $?; fi
+  if [ -f $M/demo.sh ]; then bash $M/demo.sh >/dev/null 2>&1; return $?; fi
   mkdir -p tests; cp $M/demo_test.rs tests/demo_test.rs
   RUSTFLAGS="$FLAGS" cargo test --offline $PROF $FEAT --test demo_test >/dev/null 2>&1; rc=$?
   rm -rf tests; return $rc
